@@ -301,6 +301,10 @@ func (df *DataFile) readToBuf(blockID uint32, offset uint32, buf *bytebufferpool
 	for {
 		// 当前 block 绝对偏移量
 		off := int64(blockID) * blockSize
+		// 记录的后续 chunk 所在 block 已越过文件末尾 (文件被截断)
+		if off >= fileSize {
+			return io.EOF
+		}
 		// 当前 block 实际大小
 		size := uint32(min(fileSize-off, blockSize))
 
@@ -313,8 +317,8 @@ func (df *DataFile) readToBuf(blockID uint32, offset uint32, buf *bytebufferpool
 			return err
 		}
 
-		// 对当前 chunk 解码
-		data, chunkType, err := DecodeChunk(block[offset:])
+		// 对当前 chunk 解码, 仅允许访问本次实际读取到的数据, 缓冲区中超出部分为上次使用的残留数据
+		data, chunkType, err := DecodeChunk(block[offset:size])
 		if err != nil {
 			return err
 		}
